@@ -326,7 +326,7 @@ def scenarios(pid, tier, seed):
                     for pure, crit in ((True, False), (False, True), (False, False)):
                         kids = [dyn_gen.J("b%d" % k, 0, busy=1, h=k) for k in range(n)]
                         out.append(("busy-window", dict(tree=dyn_gen.S("top", kids, T=T, w=w, pure=pure, crit=crit), busy=True)))
-    if pid in ("C11", "C13"):
+    if pid in ("C01", "C02", "C04", "C05", "C08", "C11", "C13", "C14"):
         # the top-level run cancelled from outside at some instant (wait_for, task.cancel)
         for sc in dyn_gen.targeted(pid, rng, n_t // 6) + [dyn_gen.gen_tree(rng, depth=rng.choice([1, 2, 2])) for _ in range(n_r // 8)]:
             sc = copy.deepcopy(sc)
